@@ -64,6 +64,7 @@ IDIOMS = {
     'I27': 'X.iter().map(|tx| tx.hash).collect::<Vec<sha256d::Hash>>()  =>  idiom_tx_hashes(&X)   (the hash field of every element, in order)',
     'I28': '(0..N).map(|_| E).collect()  [tail expression of a fn returning Result<Vec<T>>]  =>  { let mut v__ = Vec::new(); for i__ in 0..N { let x__ = E?; v__.push(x__); } Ok(v__) }   and   (0..N).map(|_| E).collect::<Result<Vec<T>>>()?  =>  { let mut v__: Vec<T> = Vec::new(); for i__ in 0..N { let x__ = E?; v__.push(x__); } v__ }   (collect() into a Result stops at the first Err and returns it: the same early return)',
     'I29': 'X.into_par_iter().map(|P| E).collect()  =>  { let mut v__ = Vec::new(); let xs__ = X; for P in xs__ { let y__ = E; v__.push(y__); } v__ }   (rayon: collect() of an indexed parallel map yields the results in input order, E applied once per element)',
+    'I30': 'for X in [A, B, ..] {  =>  for i__X in 0..[A, B, ..].len() { let X = [A, B, ..][i__X];   (iteration over an array literal by value, in order)',
     'I24': 'PATH(ARGS).expect(MSG)  =>  idiom_expect(PATH(ARGS), MSG)   (Result::expect: returns only when the result is Ok, panics otherwise)',
     'A1': 'abstract-expression: `expr` => havoc::<T>() (unconstrained value)',
 }
@@ -471,7 +472,7 @@ def apply_idiom(ed, text, base, body_rel, loops, rest, item_id, log, rel, src, r
     if rule not in IDIOMS:
         raise GenError('unknown idiom %s' % rule)
     inst = {'rule': rule, 'item': item_id, 'file': rel}
-    if rule in ('I1', 'I4', 'I6', 'I17'):
+    if rule in ('I1', 'I4', 'I6', 'I17', 'I30'):
         mm = re.match(r'loop\s+(\d+)$', arg)
         if not mm:
             raise GenError('idiom %s needs `loop k`' % rule)
@@ -512,6 +513,15 @@ def apply_idiom(ed, text, base, body_rel, loops, rest, item_id, log, rel, src, r
                 ed.replace(b + 1, b + 1, ' let %s = es__%s[i__%s].1;' % (v_, id_, id_), 'I17')
             else:
                 raise GenError('%s: loop header does not have the I17 shape: %s' % (item_id, hdr))
+        elif rule == 'I30':
+            h = re.match(r'for (\w+) in (\[.*\])\s*$', hdr, re.S)
+            if not h:
+                raise GenError('%s: loop header does not have the I30 shape: %s' % (item_id, hdr))
+            x_, e_ = h.groups()
+            e_ = rsx.norm_ws(e_)
+            iv = 'i__%s' % x_
+            ed.replace(a, b, 'for %s in 0..%s.len() ' % (iv, e_), 'I30')
+            ed.replace(b + 1, b + 1, ' let %s = %s[%s];' % (x_, e_, iv), 'I30')
         elif rule == 'I6':
             h = re.match(r'for (\w+) in &(.+?)\s*$', hdr, re.S)
             if not h:
